@@ -33,7 +33,12 @@ impl SetIteratorLock {
 
 impl Finalize for SetIteratorLock {
     fn finalize(&self) {
-        self.0.borrow_mut().data_mut().unlock();
+        // A collection can start while the set is borrowed (any allocation can trigger one), and
+        // a finalizer must not panic: in that case the set just stays locked, which only
+        // delays the removal of its empty entries.
+        if let Ok(mut set) = self.0.try_borrow_mut() {
+            set.data_mut().unlock();
+        }
     }
 }
 
